@@ -28,7 +28,8 @@ REQUIRED_COUNTS = {'branch:add-equal': 1, 'branch:add-broadcast': 1, 'branch:add
                    'branch:div-scalar': 1, 'exact_comparisons': 100}
 CASE_TIMEOUT = {'quick': 60, 'thorough': 60}
 
-SCALAR_KINDS = ['int', 'negint', 'float', 'complex', 'npf64', 'npi64', 't0', 't1', 'zero', 'zerof']
+SCALAR_KINDS = ['int', 'negint', 'float', 'complex', 'npf64', 'npi64', 't0', 't1', 'zero', 'zerof', 'float_nr', 'npf64_nr', 't0_nr']
+NR_KINDS = ('float_nr', 'npf64_nr', 't0_nr')      # values with no finite binary expansion: a detour through another precision is visible
 DT = ['f64', 'f64', 'f64', 'f32', 'c128']
 
 
@@ -141,10 +142,16 @@ def cases(tier, seed):
 def scalar_of(kind, dtype):
     cplx = gens.is_complex(dtype)
     return {'int': 2, 'negint': -3, 'float': 0.5, 'complex': (1 + 2j), 'npf64': np.float64(0.5), 'npi64': np.int64(2),
-            't0': torch.tensor(2.0, dtype=dtype), 't1': torch.tensor([2.0], dtype=dtype), 'zero': 0, 'zerof': 0.0}[kind]
+            't0': torch.tensor(2.0, dtype=dtype), 't1': torch.tensor([2.0], dtype=dtype), 'zero': 0, 'zerof': 0.0,
+            'float_nr': 0.3, 'npf64_nr': np.float64(-0.7), 't0_nr': torch.tensor(0.3, dtype=dtype)}[kind]
 
 
-def scalar_ref(kind):
+def scalar_ref(kind, s=None):
+    if kind == 't0_nr':
+        v = s.item()          # the value the 0-d tensor actually holds in its own dtype
+        return v.real if isinstance(v, complex) and v.imag == 0 else v
+    if kind in ('float_nr', 'npf64_nr'):
+        return float(s)
     return {'int': 2, 'negint': -3, 'float': 0.5, 'complex': (1 + 2j), 'npf64': 0.5, 'npi64': 2, 't0': 2.0, 't1': 2.0, 'zero': 0, 'zerof': 0.0}[kind]
 
 
@@ -196,7 +203,7 @@ def run_scalar(case, ctx, g):
     x = gens.make_tt(case['N'], case['R'], dt, case['vals'], g)
     op, kind = case['op'], case['kind']
     s = scalar_of(kind, dt)
-    sr = scalar_ref(kind)
+    sr = scalar_ref(kind, s)
     fns = {'add': lambda a, b: a + b, 'radd': lambda a, b: b + a, 'sub': lambda a, b: a - b, 'rsub': lambda a, b: b - a,
            'mul': lambda a, b: a * b, 'rmul': lambda a, b: b * a, 'div': lambda a, b: a / b}
     base = {'add': 'add', 'radd': 'add', 'sub': 'sub', 'rsub': 'sub', 'mul': 'mul', 'rmul': 'mul', 'div': 'div'}[op]
@@ -204,14 +211,19 @@ def run_scalar(case, ctx, g):
         ctx.count('branch:mul-zero-scalar')
     else:
         ctx.count('branch:%s-scalar' % base)
-    skind = 'tensor-scalar' if kind in ('t0', 't1') else ('numpy-scalar' if kind.startswith('np') else 'python-scalar')
+    skind = 'tensor-scalar' if kind in ('t0', 't1', 't0_nr') else ('numpy-scalar' if kind.startswith('np') else 'python-scalar')
     key = 'scalar/%s/%s' % (op, skind)
     what = 'x %s scalar(%s=%r) N=%s R=%s %s' % (op, kind, sr, case['N'], case['R'], case['dtype'])
     dx = dn.D(x)
     ref = fns[op](dx, sr)
-    exact = gens.exact_ok(dt, (gens.abs_bound(x) + 4) * 4) and not (op == 'div' and abs(sr) not in (0.25, 0.5, 1, 2, 4))
+    exact = gens.exact_ok(dt, (gens.abs_bound(x) + 4) * 4) and not (op == 'div' and abs(sr) not in (0.25, 0.5, 1, 2, 4)) and kind not in NR_KINDS
     srep = dn.s_rep(x)
     res = ctx.lib('TT.%s.scalar' % op, fns[op], x, s)
+    try:
+        if not dn.bit_equal(dn.D(x), dx):
+            ctx.viol(key + '/clause=operand-changed', '%s: the TT operand no longer has the value it had before the call' % what)
+    except ValueError:
+        ctx.viol(key + '/clause=operand-changed', '%s: the TT operand is ill-formed after the call' % what)
     if not expect_tt(ctx, key, res, what):
         return
     try:
